@@ -118,6 +118,8 @@ def shard_static(args):
             c = cl[framing]
             tm = c.transaction
             size = pred * 2 if framing == 'ascii' else pred
+            if not hasattr(tm, '_calculate_response_length') or not hasattr(tm, '_calculate_exception_length'):
+                continue        # the manager's arithmetic is arranged differently: the end-to-end part judges the read sizes
             got = tm._calculate_response_length(size)
             frame = adu.build(framing, 1, reply)
             if got != len(frame) and pred == len(reply):
